@@ -6,6 +6,8 @@ from .common import setup, run_kernels
 
 def run(chk):
     prog, base = setup(chk)
+    from .common import state_shape
+    state_shape(chk, prog)
     from .common import platform_independence
     platform_independence(chk, prog)
     from .common import api_surface, ELEMENT_API
